@@ -11,8 +11,10 @@ import (
 	"reflect"
 	"strconv"
 	"testing"
+	"time"
 
 	"github.com/facebookincubator/tacquito/cmds/server/config"
+	"github.com/facebookincubator/tacquito/cmds/server/loader/fsnotify"
 	jsonl "github.com/facebookincubator/tacquito/cmds/server/loader/json"
 	yamll "github.com/facebookincubator/tacquito/cmds/server/loader/yaml"
 	"verif/harness/cfggen"
@@ -375,3 +377,76 @@ func TestC16Regress(t *testing.T) {
 }
 
 var _ = fmt.Sprintf
+
+// TestC16EnumWatcher drives the real file watcher (cmds/server/loader/fsnotify) around a YAML loader:
+// the file is rewritten with a smaller document, then with an invalid one, then with a third; what the
+// watcher publishes after each good rewrite must equal what a fresh loader publishes for that file.
+// Waiting for the watcher's one-second tick is bounded by the watchdog; no arrival is inconclusive.
+func TestC16EnumWatcher(t *testing.T) {
+	ev.Eval()
+	dir, err := os.MkdirTemp("", "verif-c16w-")
+	if err != nil {
+		t.Fatalf("HARNESS-BUG: %v", err)
+	}
+	defer os.RemoveAll(dir)
+	path := filepath.Join(dir, "tacquito.yaml")
+	a := cfggen.Config{
+		Secrets:     []cfggen.Secret{cfggen.NewSecret(cfggen.ScopeA, cfggen.KeyA, cfggen.PrefixA), cfggen.NewSecret(cfggen.ScopeB, cfggen.KeyB, cfggen.PrefixB)},
+		Users:       []cfggen.User{{Name: "alice", Scopes: []string{cfggen.ScopeA}, Commands: []cfggen.Command{{Name: "show", Action: 2}}, Authenticator: cfggen.BcryptAuth("pw-alpha")}, {Name: "bob", Scopes: []string{cfggen.ScopeB}}},
+		PrefixDeny:  []string{"10.1.9.0/24"},
+		PrefixAllow: []string{"10.0.0.0/8"},
+	}
+	b := cfggen.Config{Secrets: a.Secrets[:1], Users: []cfggen.User{{Name: "bob", Scopes: []string{cfggen.ScopeA}}}}
+	c := cfggen.Config{Secrets: a.Secrets, Users: []cfggen.User{{Name: "carol", Scopes: []string{cfggen.ScopeB}, Accounter: cfggen.FileAccounter()}}, PrefixAllow: []string{"10.2.0.0/16"}}
+	cse := map[string]interface{}{"docs": []cfggen.Config{a, b, c}}
+	if err := os.WriteFile(path, a.YAML(), 0o600); err != nil {
+		t.Fatalf("HARNESS-BUG: %v", err)
+	}
+	ctx, cancel := context.WithCancel(context.Background())
+	defer cancel()
+	w := fsnotify.New(ctx, yamll.New(), refsrv.NopLogger{})
+	if err := w.Load(path); err != nil {
+		t.Fatalf("HARNESS-BUG: watcher refused the first document: %v", err)
+	}
+	next := func(what string) config.ServerConfig {
+		select {
+		case v := <-w.Config():
+			return v
+		case <-time.After(watchdog):
+			t.Fatalf("HARNESS-BUG/INCONCLUSIVE: the watcher published nothing within %v after %s", watchdog, what)
+		}
+		return config.ServerConfig{}
+	}
+	expect := func(what string, got config.ServerConfig, doc cfggen.Config) {
+		fresh := yamll.New()
+		if err := fresh.Unmarshal(doc.YAML()); err != nil {
+			t.Fatalf("HARNESS-BUG: %v", err)
+		}
+		want := <-fresh.Config()
+		if gs, ws := snapshot(got), snapshot(want); !reflect.DeepEqual(normJSON(gs), normJSON(ws)) {
+			violation(t, "C16", "watcher", "C16:reload-differs-from-fresh", cse, "%s: the watcher published\n %s\n a fresh loader publishes\n %s", what, clipStr(gs), clipStr(ws))
+		}
+	}
+	expect("initial load", next("the initial load"), a)
+	rewrite := func(doc []byte) {
+		tmp := path + ".new"
+		if err := os.WriteFile(tmp, doc, 0o600); err != nil {
+			t.Fatalf("HARNESS-BUG: %v", err)
+		}
+		// written in place (a write event on the watched file), in one call
+		if err := os.WriteFile(path, doc, 0o600); err != nil {
+			t.Fatalf("HARNESS-BUG: %v", err)
+		}
+		_ = os.Remove(tmp)
+	}
+	rewrite(b.YAML())
+	got := next("rewriting the file with a smaller document")
+	// a reload may catch the file between truncation and write only as an error (nothing published), so
+	// the first thing published is the new document
+	expect("after rewriting the file with a smaller document", got, b)
+	rewrite([]byte("users: [\n  - name: {unbalanced\n"))
+	rewrite(c.YAML())
+	expect("after an invalid rewrite followed by a valid one", next("the third rewrite"), c)
+	ev.Class("watcher:reload-via-file-events")
+	ev.NonTrivial("watcher", cse)
+}
